@@ -45,7 +45,63 @@ predicate is judged there, [M] = also compared with the extracted model; "new" =
    gambit query --strict -f archive                                     -s with one query (was); new query: several queries per file, FASTA files
                                                                         positional and -l/--ldir (query_parse), -c, --no-progress [P]
   not driven: non-strict mode, -f csv/json (they show report_taxon, other properties), empty reference list (np.argmin
-  raises before strict mode starts), NaN / infinite distances, cyclic parent pointers (outside the stated domain)."""
+  raises before strict mode starts), NaN / infinite distances, cyclic parent pointers (outside the stated domain).
+
+State and aliasing (audit of everything that can outlive one call; kinds `seq` and `qseq` are SCRIPTS of 2..8 calls over a
+small pool of shared caller objects, every call judged by the same predicate / model oracle as the single-call kinds
+against the tables as they are at that moment.  Columns: (a) the object is used again with other partners (other list /
+array / database / params / option values), in both orders -- every script is also run with its steps reversed;
+(b) after every call the caller's object is compared with what the harness left it as; (c) calls that fail part-way are
+interleaved and a good call follows on the same thread and objects; (d) the same call twice at once gives the same result,
+and results handed out earlier still read the same at the end of the script; (e) calls on a second thread):
+  entry point / object that outlives the call                              (a)            (b)            (c)          (d)         (e)
+  consensus_taxon(taxa)
+   the iterable (list, tuple, set, frozenset, dict, dict view)             seq            seq; consensus seq          consensus   seq
+                                                                                          (list, tuple)               (2nd call; lists 1 in 4), seq
+   Taxon objects (ORM, mutable: parent, children, distance_threshold)      seq: the caller re-parents taxa / changes thresholds between calls (per-object
+                                                                           or per-function memos of a lineage / of a match go stale), Taxon.id values repeat
+                                                                           in the two trees of a script as they do in two databases; (b) seq: parent, children,
+                                                                           threshold, id, name of every taxon after every call
+  matching_taxon(taxon, d)          Taxon objects as above                 seq            seq            seq          --          seq
+  find_matches(pairs)               the caller's list of pairs / iterator  seq            seq            seq (iterator that raises, None entry, str distance)
+  classify(ref_genomes, dists, strict=)
+   reference container (list / tuple; one genome object listed twice)      seq: any list with any array of its length; changed in place by the caller
+                                                                           between calls; (b) seq, classify (every case); (c) seq
+   distance array (float16/32/64, byte-swapped, strided / reversed /       seq: as above, cells overwritten by the caller between calls; (b) bytes of the
+     column views with decoy cells, read-only)                             array AND of the buffer under a view, dtype, strides, writeable flag: seq, classify
+   AnnotatedGenome objects (taxon, genome)                                 seq: pooled, moved to another taxon by the caller; (b) seq
+   ClassifierResult / GenomeMatch / warnings list handed out               (d) seq, qseq: re-read at the end of the script
+   strict flag forms True / np.True_ / 1, non-strict calls in between      seq (non-strict results are not judged, their after-effects are)
+   module-level / class-level state of gambit.classify                     none in the code as found (no globals, attrs factory=list); every script and the
+                                                                           whole campaign run in one process, so such state would be met by the next call
+  gambit.query.query(db, queries, params | **kw, inputs=) / get_result_item(db, params, dists, input)
+   ReferenceDatabase (genome list, sig_indices, session, open HDF5 file)   qseq: two databases of different size / taxonomy / content with the same genome-set
+                                                                           key, version and primary keys, used alternately by the same params / query
+                                                                           objects; closed and re-loaded in between; (b) genome list identity and order,
+                                                                           sig_indices, session.dirty/new/deleted, lineage + thresholds + names of every
+                                                                           genome as read through the ORM, SHA-1 of db.gdb and refs.gs, after every call
+   QueryParams object / keyword dict (strict and non-strict ones pooled)   qseq (a)(b)(c); query (b)
+   query container (list, tuple, SignatureList, SignatureArray)            qseq (a)(b)(c): bytes, dtypes, member identity
+   the caller's float32 distance row (get_result_item)                     qseq (a)(b)
+   failing calls                                                           qseq: no queries, wrong number of inputs, None among the signatures, an iterator
+                                                                           that raises, chunksize 0 (fails inside the distance computation)
+  gambit query --strict -s FILE -f archive -o OUT (in process)             qseq: between API calls on the open database objects, on both databases; failing
+                                                                           runs (truncated signature file, missing FASTA file) in between; files unchanged (b)
+  (e): the functions of gambit.classify are plain functions of their arguments and are called from worker threads by users of the
+  library; the scripts hand single steps to ONE second thread (sequential hand-over, no concurrency), which shows per-thread
+  scratch state.  SQLAlchemy sessions are documented as not thread-safe and nothing advertises fork-safety: kind qseq stays on
+  one thread, nothing is driven after fork.
+  every script is framed by a fixed good call sequence on objects of its own (seq: a three-level conflict, a single match and a
+  consensus, on both threads; qseq: two queries with a fresh params object on the first database): AFTER the script it finds state
+  the script left behind (e.g. by a failing last call), so that the script that caused it is the one reported and its replay
+  stands alone; BEFORE the script it tells state left behind in this process by an earlier, already reported script -- such a
+  script is skipped and counted (`...script-skipped...`), never blamed (and shrinking does not accept candidates then).
+  also in the single-call kinds: consensus -- the list / tuple handed over is unchanged, lists get a second call (1 in 4);
+  classify -- distance array (bytes, buffer under a view, dtype, strides, flag) and reference container unchanged; query --
+  QueryParams object / keyword dict unchanged.
+  not judged: WHICH exception a failing call raises; results of non-strict calls; memo attributes an implementation may add to
+  an object's __dict__ (only the observable fields above are compared).
+  outside: concurrent calls; the caller re-parenting taxa of a database-loaded (read-only session) taxonomy."""
 import itertools
 import re
 
@@ -56,7 +112,13 @@ RULE = ('consensus: (forest, sequence of matched taxa[, container type]) -> cons
         'find_matches; cli: the same through a scratch database and `gambit query --strict -f archive`; query: scratch database + '
         'nested k-mer sets (Jaccard distances 1-min/max) -> ReferenceDatabase.load*, gambit.query.query (params / keyword forms, chunk '
         'sizes, several queries), then `gambit query --strict -f archive` with a multi-query signature file or FASTA files. '
-        'non-trivial: at least two distinct matched taxa; counted separately: three-level conflicts '
+        'seq: a script of 2..8 classify / find_matches / matching_taxon / consensus_taxon calls over a shared pool of taxa, genomes, '
+        'reference containers, distance arrays and taxon containers, with changes by the caller (re-parenting, thresholds, genome -> taxon, '
+        'distances, list contents), failing calls and second-thread calls in between -> every call as above on the tables of that moment, '
+        'caller objects unmodified, same call same result, earlier results unchanged; qseq: the same over one or two scratch databases, '
+        'pooled QueryParams / keyword dicts / query containers, gambit.query.query / get_result_item / the command line, failing calls and '
+        'reloads in between. '
+        'non-trivial: at least two distinct matched taxa (seq / qseq: in some call of the script); counted separately: three-level conflicts '
         '{taxon, a strict descendant, an incomparable taxon of the same tree}, container / option / shape counters')
 TRUSTED = ['SQLAlchemy ORM: transient Taxon/AnnotatedGenome objects (parent relationship, identity equality/hash) '
            'behave like loaded ones for .parent/.ancestors()/.distance_threshold',
@@ -66,7 +128,10 @@ TRUSTED = ['SQLAlchemy ORM: transient Taxon/AnnotatedGenome objects (parent rela
            'cli stream: SQLite/SQLAlchemy, h5py and the distance kernel deliver the taxonomy, thresholds and the Jaccard '
            'distances (16-m)/16 the harness designed into the scratch database (query {0..15}, reference = its first m k-mers)',
            'query kind: the same, with k-mer sets that are prefixes of 16 fixed 5-mers over {C,G} (distance 1-min/max); FASTA input: '
-           'k-mer search and index coding (ACGT=0123, big-endian; properties C01/C06/C07) turn the contigs ATGAC+w into those sets']
+           'k-mer search and index coding (ACGT=0123, big-endian; properties C01/C06/C07) turn the contigs ATGAC+w into those sets',
+           'seq / qseq (scripts): the harness\'s own bookkeeping of what it put into the shared objects; SQLAlchemy attribute events keep '
+           '.parent / .children / .taxon of transient objects consistent when the caller reassigns them; one ThreadPoolExecutor worker as the '
+           'second thread; SHA-1 of the database files']
 ASSUMPTIONS = ['the taxonomy is a forest (parent pointers acyclic), so every taxon is identified by its root path',
                'distances and thresholds are finite floats; the harness uses multiples of 1/16 so that the model can use integers',
                'the closest-match fields (closest_match, next_taxon, "Primary genome match is not closest match" warning) '
@@ -75,7 +140,11 @@ ASSUMPTIONS = ['the taxonomy is a forest (parent pointers acyclic), so every tax
                '(ties between equally near genomes are not constrained by the property)',
                'streams outside the integer model (classify with denominators other than 16, kind query) are judged by the '
                'specification on the matched set computed with exact comparisons of the numbers handed over, and the property '
-               'predicate; the reported primary distance is there only required to agree to float32 accuracy']
+               'predicate; the reported primary distance is there only required to agree to float32 accuracy',
+               'state and aliasing: a call must leave the objects it is handed (containers, arrays, params, ORM fields, database files) as '
+               'they were, and results handed out must not change later -- ordinary API hygiene from which order- and history-independence '
+               'of the outcome follows; which exception a failing call raises is not judged; calls are sequential (a second thread is used '
+               'one call at a time), nothing is run after fork']
 SHRINK = True
 BATCH = 1500
 
@@ -213,10 +282,15 @@ def k_consensus(ctx, cases):
 	for n, c in enumerate(cases):
 		paths, order, taxa, index, kind, arg, again, seen = prepared[n]
 		impl2 = None
+		changed = None
 		try:
+			held = list(arg) if kind in ('list', 'tuple') else None
 			r = consensus_taxon(arg)
 			impl = (None if r[0] is None else index[id(r[0])], sorted(index[id(t)] for t in r[1]))
-			if again and kind != 'list':
+			if held is not None and (len(arg) != len(held) or any(a is not b for a, b in zip(arg, held))):
+				# (state and aliasing) the caller's sequence is the caller's: same members, same order afterwards
+				changed = [index.get(id(t)) for t in arg]
+			if again and (kind != 'list' or n % 4 == 0):
 				# a caller-supplied object used for a second call: the consensus is a function of the set
 				r2 = consensus_taxon(arg)
 				impl2 = (None if r2[0] is None else index[id(r2[0])], sorted(index[id(t)] for t in r2[1]))
@@ -251,6 +325,10 @@ def k_consensus(ctx, cases):
 			              f'of this set of matched taxa (lowest common ancestor of its most specific members, which does not '
 			              f'depend on their order) is {_show(spec)}',
 			              impl=impl, spec=spec, model=model, model_of_algorithm_as_found=model_v0)
+		elif changed is not None:
+			ctx.violation('consensus', c,
+			              f'consensus_taxon({_names(c["parents"], order)}) on parents={c["parents"]} changed the {kind} object it was handed: it now '
+			              f'holds {_names(c["parents"], changed)}', impl=changed, spec=list(order))
 		elif impl2 is not None and impl2 != spec:
 			ctx.violation('consensus', c,
 			              f'consensus_taxon called a second time with the same {kind} object of {_names(c["parents"], order)} on '
@@ -446,11 +524,23 @@ def k_classify(ctx, cases):
 			bad(f'find_matches groups the genomes as {fm_i}, expected {fm_spec}', impl=fm_i, spec=fm_spec)
 			continue
 
+		held = (dists.tobytes(), (dists if dists.base is None else dists.base).tobytes(), dists.dtype.str, dists.strides,
+		        bool(dists.flags.writeable), list(refs))
 		try:
 			r = classify(refs, dists, strict=strict)
 			r_again = classify(refs, dists, strict=strict) if o.get('reuse') else None
 		except Exception as e:  # noqa
 			bad(f'raises {type(e).__name__}: {e}', impl=f'{type(e).__name__}')
+			continue
+		# (state and aliasing) the distance array and the reference container are the caller's: unchanged afterwards
+		if held[:5] != (dists.tobytes(), (dists if dists.base is None else dists.base).tobytes(), dists.dtype.str, dists.strides,
+		                bool(dists.flags.writeable)):
+			bad(f'classify changed the distance array it was handed ({layout}): it now holds {den}*d = {[float(x) * den for x in dists]} '
+			    f'(dtype {dists.dtype.str}, writeable={bool(dists.flags.writeable)})', impl=[float(x) * den for x in dists],
+			    spec=[d for t, d in c['genomes']])
+			continue
+		if len(refs) != len(held[5]) or any(a is not b for a, b in zip(refs, held[5])):
+			bad('classify changed the container of reference genomes it was handed')
 			continue
 
 		def observe(r):
@@ -838,15 +928,21 @@ def k_query(ctx, cases):
 				db = ReferenceDatabase.load(os.path.join(d, 'db.gdb'), os.path.join(d, 'refs.gs'))
 			try:
 				chunk = api.get('chunksize', 1000)
+				prm = QueryParams(True, chunk)
+				kwd = dict(classify_strict=True, chunksize=chunk)
 				if api.get('form') == 'kw':
-					res = query(db, qs, classify_strict=True, chunksize=chunk)
+					res = query(db, qs, **kwd)
 				elif api.get('form') == 'positional':
-					res = query(db, qs, QueryParams(True, chunk))
+					res = query(db, qs, prm)
 				else:
-					res = query(db, qs, QueryParams(classify_strict=True, chunksize=chunk), inputs=[f'q{j}' for j in range(len(c['queries']))])
+					res = query(db, qs, prm, inputs=[f'q{j}' for j in range(len(c['queries']))])
 				ctx.count('stream-part:query-api', len(res.items))
 				okall = len(res.items) == len(c['queries'])
-				if not okall:
+				# (state and aliasing) the params object / keyword dict are the caller's: unchanged afterwards
+				if (prm.classify_strict, prm.chunksize, prm.report_closest) != (True, chunk, 10) or kwd != dict(classify_strict=True, chunksize=chunk):
+					bad(f'gambit.query.query({api}) changed the QueryParams object / keyword dict it was handed: {prm!r} {kwd!r}')
+					okall = False
+				elif not okall:
 					bad(f'gambit.query.query returns {len(res.items)} items for {len(c["queries"])} queries')
 				for j, item in enumerate(res.items if okall else []):
 					r = item.classifier_result
@@ -930,9 +1026,951 @@ def k_query(ctx, cases):
 			shutil.rmtree(d, ignore_errors=True)
 
 
-KINDS = {'consensus': k_consensus, 'classify': k_classify, 'cli': k_cli, 'query': k_query}
-# 'query' has no Coq model behind it (see its header): it is not listed as a model/implementation correspondence
-CORRESPONDENCES = ['classify', 'cli', 'consensus']
+# ---------------------------------------------------------------------------------------------
+# kind: seq  --  statefulness and aliasing at the level of gambit.classify: one case is a short SCRIPT of calls over a
+# small pool of shared caller objects (Taxon / AnnotatedGenome objects, reference lists, distance arrays, containers of
+# taxa).  Between the calls the caller (the harness) may change ITS OWN objects (re-parent a taxon, change a threshold,
+# move a genome, overwrite a distance, change a list in place); every call is judged by the same predicate / model
+# oracle as the single-call kinds against the tables as they are AT THAT MOMENT, and after every call the caller's
+# objects must be exactly what the harness left them as.  Calls that fail part-way are interleaved.
+
+_SEQ_FAILS = ('none-in-refs', 'taxonless-genome', 'raising-pairs', 'raising-taxa', 'empty-refs', 'bad-distance')
+_seq_worker = [None]
+
+
+def _seq_thread(fn):
+	"""run fn on the (one, persistent) second thread of this process and hand its outcome over"""
+	from concurrent.futures import ThreadPoolExecutor
+	if _seq_worker[0] is None:
+		_seq_worker[0] = ThreadPoolExecutor(max_workers=1, thread_name_prefix='c10-second-thread')
+	return _seq_worker[0].submit(fn).result()
+
+
+def _seq_canary():
+	"""a fixed good call sequence on objects of its own (three-level conflict, a single match, a consensus), on the main and on the
+	second thread: returns a function -> None, or how the outcome differs from the known one.  Run before every script (state left
+	behind in this process by an EARLIER script that was already reported must not be blamed on this one: the script is skipped)
+	and after it (state the script left behind -- e.g. by a failing last call -- is found by the script that caused it, so that
+	its replay stands alone)."""
+	import numpy as np
+	from gambit.classify import classify, consensus_taxon
+	from gambit.db import AnnotatedGenome, Genome, Taxon
+	taxa = []
+	for i, (p, t) in enumerate(zip([-1, 0, 0, 1], [None, 8, 8, 4])):
+		taxa.append(Taxon(id=i, name=f'c{i}', parent=taxa[p] if p >= 0 else None, **({} if t is None else {'distance_threshold': t / 16})))
+	gs = [AnnotatedGenome(taxon=taxa[t], genome=Genome(key=f'c{i}', description=f'c{i}')) for i, t in enumerate([1, 2, 3])]
+	d3 = np.array([6 / 16, 6 / 16, 3 / 16], dtype=np.float32)
+	d1 = np.array([0.25])
+
+	def once(run, who):
+		r = run(lambda: classify(gs, d3, strict=True))
+		pm = r.primary_match
+		got = (r.success, r.predicted_taxon, _q_warned(r.warnings), r.error,
+		       None if pm is None else (pm.genome, float(pm.distance), pm.matched_taxon))
+		if got != (True, taxa[0], (3, [1, 2, 3]), None, (gs[2], 3 / 16, taxa[3])):
+			return f'classify(strict=True) of the fixed three-level conflict (own fresh objects, {who}) gives {got}'
+		r = run(lambda: classify(gs[:1], d1, strict=True))
+		pm = r.primary_match
+		got = (r.success, r.predicted_taxon, _q_warned(r.warnings), r.error, None if pm is None else (pm.genome, float(pm.distance), pm.matched_taxon))
+		if got != (True, taxa[1], None, None, (gs[0], 0.25, taxa[1])):
+			return f'classify(strict=True) of one fixed matching genome (own fresh objects, {who}) gives {got}'
+		r = run(lambda: consensus_taxon([taxa[3], taxa[2]]))
+		if r[0] is not taxa[0] or r[1] != {taxa[3], taxa[2]}:
+			return f'consensus_taxon of two fixed taxa (own fresh objects, {who}) gives {r}'
+		return None
+
+	def canary():
+		return once(lambda f: f(), 'main thread') or once(_seq_thread, 'second thread')
+	return canary
+
+
+def _seq_check(c):
+	"""well-formedness of a script case (shrinking produces ill-formed candidates: they are rejected here)"""
+	n = len(c['parents'])
+	_paths(c['parents'])
+	if len(c['thr']) != n or len(c['ids']) != n or n == 0:
+		raise ValueError('bad tables')
+	if any(t is not None and not (0 <= t <= 17) for t in c['thr']):
+		raise ValueError('bad threshold')
+	ng = len(c['genomes'])
+	if any(not (0 <= t < n) for t in c['genomes']):
+		raise ValueError('bad genome pool')
+	for L in c['lists']:
+		if L['as'] not in ('list', 'tuple') or any(not (0 <= g < ng) for g in L['g']):
+			raise ValueError('bad list pool')
+	for A in c['arrays']:
+		if A['layout'] not in _LAYOUTS or any(not (0 <= v <= 17) for v in A['v']) or not A['v']:
+			raise ValueError('bad array pool')
+	for S in c['taxsets']:
+		if S['as'] not in _CONTAINERS[:6] or any(not (0 <= t < n) for t in S['t']):
+			raise ValueError('bad container pool')
+	if not c['steps']:
+		raise ValueError('no steps')
+
+
+def _seq_expect(parents, thr, td):
+	"""expectation for classify / find_matches on reference entries td = [(taxon, sixteenths)] with the tables as they are now"""
+	paths = _paths(parents)
+	matched = []
+	glist = []
+	for t, d in td:
+		glist.append([[[a, None if thr[a] is None else [thr[a]]] for a in paths[t]], d])
+		mt = None
+		for a in reversed(paths[t]):
+			if thr[a] is not None and d <= thr[a]:
+				mt = a
+				break
+		matched.append(mt)
+	mset = sorted({m for m in matched if m is not None})
+	return paths, matched, mset, glist
+
+
+def _seq_plan(c):
+	"""simulate the script on the harness's own tables: per step what to expect, and the model requests"""
+	parents, thr, gtax = list(c['parents']), list(c['thr']), list(c['genomes'])
+	lists = [list(L['g']) for L in c['lists']]
+	arrays = [list(A['v']) for A in c['arrays']]
+	n, ng = len(parents), len(gtax)
+	plan, reqs = [], []
+	for s in c['steps']:
+		op = s['op']
+		e = dict(op=op)
+		if op in ('classify', 'find'):
+			L, A = lists[s['l']], arrays[s['a']]
+			if len(L) != len(A) or not L:
+				e['fails'] = True
+			else:
+				td = [(gtax[g], A[i]) for i, g in enumerate(L)]
+				paths, matched, mset, glist = _seq_expect(parents, thr, td)
+				e.update(paths=paths, matched=matched, mset=mset, td=td, off=len(reqs), repeated=len(set(L)) != len(L))
+				reqs += [(1003, [paths[i] for i in mset]), (1004, glist), (1007, glist)]
+		elif op == 'match':
+			if not (0 <= s['g'] < ng) or not (0 <= s['d'] <= 17):
+				raise ValueError('bad step')
+			paths, matched, mset, glist = _seq_expect(parents, thr, [(gtax[s['g']], s['d'])])
+			e.update(matched=matched[0], off=len(reqs))
+			reqs += [(1006, glist[0])]
+		elif op == 'consensus':
+			S = c['taxsets'][s['s']]
+			paths = _paths(parents)
+			e.update(paths=paths, set=list(S['t']), off=len(reqs))
+			reqs += [(1003, [paths[i] for i in sorted(set(S['t']))])]
+		elif op == 'edit':
+			w = s['what']
+			if w == 'parent':
+				if not (0 <= s['t'] < n) or not (-1 <= s['p'] < s['t']):
+					raise ValueError('bad edit')
+				parents[s['t']] = s['p']
+			elif w == 'thr':
+				if not (0 <= s['t'] < n) or not (s['v'] is None or 0 <= s['v'] <= 17):
+					raise ValueError('bad edit')
+				thr[s['t']] = s['v']
+			elif w == 'taxon':
+				if not (0 <= s['g'] < ng) or not (0 <= s['t'] < n):
+					raise ValueError('bad edit')
+				gtax[s['g']] = s['t']
+			elif w == 'dist':
+				A = arrays[s['a']]
+				if c['arrays'][s['a']]['layout'] == 'readonly' or not (0 <= s['i'] < len(A)) or not (0 <= s['v'] <= 17):
+					raise ValueError('bad edit')
+				A[s['i']] = s['v']
+			elif w == 'list':
+				if c['lists'][s['l']]['as'] != 'list' or any(not (0 <= g < ng) for g in s['g']):
+					raise ValueError('bad edit')
+				lists[s['l']][:] = s['g']
+			else:
+				raise ValueError('bad edit')
+		elif op == 'fail':
+			if s['how'] not in _SEQ_FAILS:
+				raise ValueError('bad step')
+			c['lists'][s['l']], c['arrays'][s['a']], c['taxsets'][s['s']]
+			if s['at'] < 0:
+				raise ValueError('bad step')
+		else:
+			raise ValueError('bad step')
+		plan.append(e)
+	return plan, reqs
+
+
+def _seq_describe(c, k):
+	s = c['steps'][k]
+	return f'step {k + 1} of {len(c["steps"])} {s}'
+
+
+def k_seq(ctx, cases):
+	import numpy as np
+	from fractions import Fraction
+	from gambit.classify import classify, matching_taxon, find_matches, consensus_taxon
+	from gambit.db import AnnotatedGenome, Genome, Taxon
+	plans = []
+	reqs = []
+	for c in cases:
+		_seq_check(c)
+		plan, r = _seq_plan(c)
+		plans.append((plan, len(reqs)))
+		reqs += r
+	ans = ctx.model(reqs) if ctx.model_ok else None
+	canary = _seq_canary()
+	for c, (plan, base) in zip(cases, plans):
+		n = len(c['parents'])
+		w = canary()
+		if w is not None:
+			# state left behind in this process by an earlier script (reported there): this script cannot be judged
+			if ctx.replaying:
+				raise RuntimeError('process state was changed by an earlier case: ' + w)
+			ctx.count('seq:script-skipped (state left behind in the process by an earlier, reported script)')
+			if not ctx.violations:
+				# nothing was reported so far, yet the fixed good call is wrong: not a state effect of a script
+				ctx.broke('seq: the fixed good call that frames every script is wrong although no violation was reported before', w)
+			ctx.case(c)
+			continue
+		# ---- the caller's objects (fresh for every case: the script changes them)
+		taxa = []
+		for i, p in enumerate(c['parents']):
+			kw = {}
+			if c['thr'][i] is not None:
+				kw['distance_threshold'] = c['thr'][i] / 16
+			taxa.append(Taxon(id=c['ids'][i], name=f't{i}', parent=taxa[p] if p >= 0 else None, **kw))
+		index = {id(t): i for i, t in enumerate(taxa)}
+		inner = [Genome(key=f'g{i}', description=f'g{i}') for i in range(len(c['genomes']))]
+		gs = [AnnotatedGenome(taxon=taxa[t], genome=inner[i]) for i, t in enumerate(c['genomes'])]
+		gindex = {id(g): i for i, g in enumerate(gs)}
+		lists = [(list if L['as'] == 'list' else tuple)(gs[g] for g in L['g']) for L in c['lists']]
+		arrays = [_dists_array([v / 16 for v in A['v']], A['layout']) for A in c['arrays']]
+		taxsets = [_container(S['as'], [taxa[t] for t in S['t']])[0] for S in c['taxsets']]
+		# ---- the harness's record of what these objects hold
+		st = dict(parents=list(c['parents']), thr=list(c['thr']), gtax=list(c['genomes']), lists=[list(L['g']) for L in c['lists']])
+
+		def snap_array(a):
+			b = a if a.base is None else a.base
+			return (a.tobytes(), b.tobytes(), a.dtype.str, a.shape, a.strides, bool(a.flags.writeable))
+
+		def snap_set(kind, o):
+			if kind in ('list', 'tuple'):
+				return [index.get(id(t)) for t in o]
+			if kind == 'dict':
+				return [(index.get(id(t)), v) for t, v in o.items()]
+			return (len(o), sorted(index.get(id(t), -1) for t in o))
+		asnap = [snap_array(a) for a in arrays]
+		ssnap = [snap_set(S['as'], o) for S, o in zip(c['taxsets'], taxsets)]
+
+		def world():
+			"""None, or how a caller object differs from what the harness left it as"""
+			for i, t in enumerate(taxa):
+				p = st['parents'][i]
+				if t.parent is not (taxa[p] if p >= 0 else None):
+					return f'the parent of taxon t{i} is now {t.parent!r} (the caller set {"t%d" % p if p >= 0 else None})'
+				e = None if st['thr'][i] is None else st['thr'][i] / 16
+				if t.distance_threshold != e or (t.distance_threshold is None) != (e is None):
+					return f'the threshold of taxon t{i} is now {t.distance_threshold!r} (the caller set {e!r})'
+				if t.id != c['ids'][i] or t.name != f't{i}':
+					return f'id / name of taxon t{i} are now {t.id!r} / {t.name!r}'
+				kids = sorted(index.get(id(k), -1) for k in t.children)
+				if kids != [j for j in range(n) if st['parents'][j] == i]:
+					return f'the children of taxon t{i} are now {kids}'
+			for i, g in enumerate(gs):
+				if g.taxon is not taxa[st['gtax'][i]] or g.genome is not inner[i]:
+					return f'genome g{i} now has taxon {g.taxon!r} / genome {g.genome!r}'
+			for k, (L, o) in enumerate(zip(c['lists'], lists)):
+				if type(o) is not (list if L['as'] == 'list' else tuple) or [gindex.get(id(g)) for g in o] != st['lists'][k]:
+					return (f'reference {L["as"]} #{k} now holds genomes {[gindex.get(id(g)) for g in o]} '
+					        f'(the caller put {st["lists"][k]} into it)')
+			for k, a in enumerate(arrays):
+				if snap_array(a) != asnap[k]:
+					was = [float(x) * 16 for x in np.frombuffer(asnap[k][0], dtype=np.dtype(asnap[k][2]))]
+					return (f'distance array #{k} ({c["arrays"][k]["layout"]}) now holds 16*d = {[float(x) * 16 for x in a]} (dtype {a.dtype.str}, '
+					        f'writeable={bool(a.flags.writeable)}); the caller put in {was} (dtype {asnap[k][2]}, writeable={asnap[k][5]})'
+					        + ('' if a.tobytes() != asnap[k][0] or a.dtype.str != asnap[k][2] else
+					           '; cells of the underlying buffer that the view skips, or its layout / flags, were changed'))
+			for k, (S, o) in enumerate(zip(c['taxsets'], taxsets)):
+				if snap_set(S['as'], o) != ssnap[k]:
+					return f'the {S["as"]} of taxa #{k} now holds {snap_set(S["as"], o)} (the caller put in {ssnap[k]})'
+			return None
+
+		def observe(r, refs, dv):
+			pm = r.primary_match
+			primary = None
+			if pm is not None:
+				pd = float(pm.distance)
+				gi = [i for i, g in enumerate(refs) if g is pm.genome]
+				if gi:
+					pi = min(gi, key=lambda i: abs(dv[i] - pd))
+					primary = (pi, pd, None if pm.matched_taxon is None else index.get(id(pm.matched_taxon), -1))
+				else:
+					primary = (-1, pd, None)
+			return dict(success=bool(r.success), error=r.error, pred=None if r.predicted_taxon is None else index.get(id(r.predicted_taxon), -1),
+			            warned=_q_warned(r.warnings), primary=primary)
+
+		def bad(what, **kw):
+			ctx.violation('seq', c, what + f' [script of calls over shared caller objects; at the start: taxa parents={c["parents"]} '
+			              f'thr/16={c["thr"]} ids={c["ids"]}, genome pool (taxon)={c["genomes"]}, reference containers={c["lists"]}, '
+			              f'distance arrays(16*d)={c["arrays"]}, taxon containers={c["taxsets"]}]', **kw)
+
+		ctx.count('stream-part:seq-steps', len(c['steps']))
+		nontrivial = False
+		results = []                 # (step, result object, observation, refs, dv)
+		failed_on = set()            # threads on which the latest call failed part-way
+		edited = False
+		partners = {}
+		ok = True
+		for k, (s, e) in enumerate(zip(c['steps'], plan)):
+			op = s['op']
+			th = 1 if s.get('th') else 0
+			run = _seq_thread if th else (lambda f: f())
+			where = _seq_describe(c, k) + (' (on a second thread)' if th else '')
+			if th and op != 'edit':
+				ctx.count('seq:call-on-second-thread')
+			if op == 'edit':
+				w = s['what']
+				ctx.count('seq-step:edit-' + w)
+				edited = True
+				if w == 'parent':
+					taxa[s['t']].parent = taxa[s['p']] if s['p'] >= 0 else None
+					st['parents'][s['t']] = s['p']
+				elif w == 'thr':
+					taxa[s['t']].distance_threshold = None if s['v'] is None else s['v'] / 16
+					st['thr'][s['t']] = s['v']
+				elif w == 'taxon':
+					gs[s['g']].taxon = taxa[s['t']]
+					st['gtax'][s['g']] = s['t']
+				elif w == 'dist':
+					arrays[s['a']][s['i']] = s['v'] / 16
+					asnap[s['a']] = snap_array(arrays[s['a']])
+				elif w == 'list':
+					lists[s['l']][:] = [gs[g] for g in s['g']]
+					st['lists'][s['l']] = list(s['g'])
+				continue
+			if op == 'fail' or e.get('fails'):
+				# ---- a call that fails part-way; only its after-effects are judged (by the later steps and world())
+				how = s['how'] if op == 'fail' else 'length-mismatch'
+				ctx.count('seq-step:failing-call-' + how)
+				refs, dists = lists[s['l']], arrays[s['a']]
+				at = s.get('at', 0)
+
+				def failing():
+					if how in ('none-in-refs', 'taxonless-genome', 'bad-distance') and min(len(refs), len(dists)) == 0:
+						raise _SeqBoom('nothing to call with')
+					if how == 'length-mismatch':
+						return classify(refs, dists, strict=True) if op == 'classify' else find_matches(zip_strict_(refs, dists))
+					if how == 'none-in-refs':
+						m = min(len(refs), len(dists))
+						l2 = list(refs[:m])
+						l2[min(at, m - 1)] = None
+						return classify(l2, dists[:m], strict=True)
+					if how == 'taxonless-genome':
+						m = min(len(refs), len(dists))
+						l2 = list(refs[:m])
+						l2[min(at, m - 1)] = AnnotatedGenome(taxon=None, genome=Genome(key='stray', description='stray'))
+						return classify(l2, dists[:m], strict=True)
+					if how == 'raising-pairs':
+						def pairs():
+							for i, (g, d) in enumerate(zip(refs, dists)):
+								if i >= at:
+									break
+								yield g, d
+							raise _SeqBoom('the caller\'s iterator fails')
+						return find_matches(pairs())
+					if how == 'raising-taxa':
+						def it():
+							for i, t in enumerate(list(taxsets[s['s']])):
+								if i >= at:
+									break
+								yield t
+							raise _SeqBoom('the caller\'s iterator fails')
+						return consensus_taxon(it())
+					if how == 'empty-refs':
+						return classify([], np.array([], dtype=np.float32), strict=True)
+					if how == 'bad-distance':
+						m = min(len(refs), len(dists))
+						d2 = [float(x) for x in dists[:m]]
+						d2[min(at, m - 1)] = 'near'
+						return find_matches(zip(refs[:m], d2))
+					raise ValueError('bad step')
+				try:
+					run(failing)
+					ctx.count('seq:failing-call-did-not-raise')
+				except Exception:  # noqa
+					failed_on.add(th)
+				w = world()
+				if w is not None:
+					bad(f'{where}: after this (failing) call {w}')
+					ok = False
+					break
+				continue
+			# ---- a good call
+			if th in failed_on:
+				ctx.count('seq:good-call-after-a-failed-call-on-the-same-thread')
+				failed_on.discard(th)
+			if edited:
+				ctx.count('seq:call-after-the-caller-changed-its-objects')
+			ctx.count('seq-step:' + op)
+			if op == 'match':
+				g, d = gs[s['g']], s['d']
+				x = {None: np.float32(d / 16), 'py': d / 16, 'f64': np.float64(d / 16)}[s.get('scalar')]
+				r = run(lambda: matching_taxon(g.taxon, x))
+				r = None if r is None else index.get(id(r), -1)
+				if r != e['matched']:
+					bad(f'{where}: matching_taxon(t{st["gtax"][s["g"]]}, {d}/16) = {r}; with parents={st["parents"]} thr/16={st["thr"]} the most specific '
+					    f'taxon of the lineage whose threshold covers the distance is {e["matched"]}', impl=r, spec=e['matched'])
+					ok = False
+				elif ans is not None:
+					m = ans[base + e['off']]
+					m = m[0][-1] if m else None
+					if m != r:
+						ctx.broke('correspondence matching_taxon (model vs implementation, script)', f'case {c} step {k}: impl={r} model={m}')
+			elif op == 'consensus':
+				o = taxsets[s['s']]
+				paths = e['paths']
+				r = run(lambda: consensus_taxon(o))
+				impl = (None if r[0] is None else index.get(id(r[0]), -1), sorted(index.get(id(t), -1) for t in r[1]))
+				py = _py_spec(paths, e['set'])
+				spec = py
+				if ans is not None:
+					spec = _dec_cons(ans[base + e['off']])
+					if spec != py:
+						ctx.broke('extracted specification vs python oracle (script, consensus)', f'case {c} step {k}: spec={spec} python={py}')
+						ok = False
+				if len(set(e['set'])) >= 2:
+					nontrivial = True
+				if ok and impl != spec:
+					bad(f'{where}: consensus_taxon on the caller\'s {c["taxsets"][s["s"]]["as"]} of {_names(None, e["set"])} returns {_show(impl)}; with '
+					    f'parents={st["parents"]} the consensus of this set is {_show(spec)}', impl=impl, spec=spec)
+					ok = False
+			else:
+				refs, dists = lists[s['l']], arrays[s['a']]
+				key = ('l', s['l'])
+				partners.setdefault(key, set()).add(s['a'])
+				partners.setdefault(('a', s['a']), set()).add(s['l'])
+				paths, matched, mset = e['paths'], e['matched'], e['mset']
+				td = e['td']
+				dv = [float(x) for x in dists]
+				if s.get('strict') != 'no':
+					if len(mset) >= 2:
+						nontrivial = True
+					if _three_level(paths, mset):
+						ctx.count('shape:three-level-conflict')
+				py = _py_spec(paths, mset)
+				spec = py
+				if ans is not None:
+					spec = _dec_cons(ans[base + e['off']])
+					if spec != py:
+						ctx.broke('extracted specification vs python oracle (script, classify)', f'case {c} step {k}: spec={spec} python={py}')
+						ok = False
+						break
+				cons, others = spec
+				now = f'with parents={st["parents"]} thr/16={st["thr"]} reference entries (taxon,16*d)={[list(x) for x in td]}'
+				if op == 'find':
+					pl = list(zip(refs, dists))
+					pl0 = list(pl)
+					fm = run(lambda: find_matches(pl))
+					fm_i = {index.get(id(t), -1): sorted(v) for t, v in fm.items()}
+					fm_spec = {}
+					for i, m in enumerate(matched):
+						if m is not None:
+							fm_spec.setdefault(m, []).append(i)
+					if fm_i != fm_spec:
+						bad(f'{where}: find_matches groups the entries as {fm_i}; {now} it is {fm_spec}', impl=fm_i, spec=fm_spec)
+						ok = False
+					elif len(pl) != len(pl0) or any(a is not b for a, b in zip(pl, pl0)):
+						bad(f'{where}: find_matches changed the caller\'s list of (genome, distance) pairs')
+						ok = False
+				else:
+					strict = {None: True, 'np': np.True_, 'one': 1, 'no': False}[s.get('strict')]
+					if strict is False:
+						# a non-strict call in between: not a subject of this property, only its after-effects are
+						ctx.count('seq:non-strict-call-in-between (not judged)')
+						try:
+							run(lambda: classify(refs, dists, strict=False))
+						except Exception as x:  # noqa
+							bad(f'{where}: classify(strict=False) raises {type(x).__name__}: {x}; {now}', impl=type(x).__name__)
+							ok = False
+							break
+						w = world()
+						if w is not None:
+							bad(f'{where}: after this call {w}')
+							ok = False
+							break
+						continue
+					try:
+						r = run(lambda: classify(refs, dists, strict=strict))
+						r2 = run(lambda: classify(refs, dists, strict=strict))
+					except Exception as x:  # noqa
+						bad(f'{where}: classify(strict=True) raises {type(x).__name__}: {x}; {now}', impl=type(x).__name__)
+						ok = False
+						break
+					obs = observe(r, refs, dv)
+					obs2 = observe(r2, refs, dv)
+					dex = [Fraction(d, 16) for t, d in td]
+					results.append((k, r, obs, tuple(refs), dv, list(r.warnings)))
+					results.append((k, r2, obs2, tuple(refs), dv, list(r2.warnings)))
+					judged = []
+					if not _q_judge(lambda w, **kw: judged.append((w, kw)), 'x', paths, matched, mset, cons, others, dex, obs):
+						w, kw = judged[0]
+						bad(f'{where}: classify(strict=True) {now}' + w[1:], **kw)
+						ok = False
+					elif (obs2['pred'], obs2['warned'], obs2['success'], obs2['error'], (obs2['primary'] or (0, None))[1]) != \
+							(obs['pred'], obs['warned'], obs['success'], obs['error'], (obs['primary'] or (0, None))[1]):
+						bad(f'{where}: the same classify call repeated at once gives {obs2} after {obs}; {now}', impl=obs2, spec=obs)
+						ok = False
+					elif ans is not None:
+						m = ans[base + e['off'] + 1]
+						if m[0] != 0:
+							ctx.broke('correspondence classify (model returned an error outcome, script)', f'case {c} step {k}: model={m}')
+						else:
+							s_, p_, b_, o_ = m[1]
+							model = dict(success=bool(s_), predicted=p_[0][-1] if p_ else None,
+							             primary=(b_[0][0], float(b_[0][1]), b_[0][2][-1]) if b_ else None, others=sorted({p[-1] for p in o_}))
+							pr = obs['primary']
+							mi = dict(success=obs['success'], predicted=obs['pred'], primary=None if pr is None else (pr[0], pr[1] * 16, pr[2]),
+							          others=[] if obs['warned'] is None else obs['warned'][1])
+							if e['repeated']:
+								# one genome object listed several times: the entry the primary match stands for is not determined
+								mi['primary'] = None if mi['primary'] is None else mi['primary'][1:]
+								model['primary'] = None if model['primary'] is None else model['primary'][1:]
+							if mi != model:
+								ctx.broke('correspondence classify (model of repaired strict classify vs implementation, script)',
+								          f'case {c} step {k}: impl={mi} model={model}')
+			if not ok:
+				break
+			w = world()
+			if w is not None:
+				bad(f'{where}: after this call {w}')
+				ok = False
+				break
+		if ok:
+			# ---- results handed out earlier are not changed by later calls
+			for k, r, obs, refs, dv, warnings in results:
+				o2 = observe(r, refs, dv)
+				if o2 != obs or list(r.warnings) != warnings:
+					bad(f'the result returned by {_seq_describe(c, k)} reads {o2} warnings={list(r.warnings)} at the end of the script; '
+					    f'when it was returned it read {obs} warnings={warnings}', impl=o2, spec=obs)
+					break
+			if any(len(v) > 1 for v in partners.values()):
+				ctx.count('seq:object-used-with-two-different-partners')
+			w = canary()
+			if w is not None:
+				bad(f'after the script (last step: {c["steps"][-1]}) a fixed good call is wrong -- the script left state behind: {w}')
+		ctx.case(c, nontrivial=nontrivial)
+
+
+class _SeqBoom(Exception):
+	pass
+
+
+def zip_strict_(a, b):
+	return zip(a, b, strict=True)
+
+
+# ---------------------------------------------------------------------------------------------
+# kind: qseq  --  statefulness and aliasing at the level of gambit.query / the command line: a script of calls over one or
+# two scratch databases of different size and content (same genome-set key and version, overlapping primary keys), a
+# pool of QueryParams objects / keyword dicts and a pool of query containers, all of them used again and again in any
+# order; failing calls in between.  Every strict result is judged as in kind `query`; after every call the params
+# objects, keyword dicts, query containers, distance rows, the database object (genome list, signature indices, ORM
+# fields, session state) and the two database files must be unchanged.
+
+_QSEQ_FAILS = ('empty', 'inputs-mismatch', 'bad-signature', 'raising-queries', 'bad-chunksize', 'cli-truncated', 'cli-missing-file')
+
+
+def _q_expect(paths, thr, refs, q):
+	"""kind query's expectation for one query with q k-mers: exact rational distances, matched taxa, consensus"""
+	from fractions import Fraction
+	dex = [1 - Fraction(min(m, q), max(m, q)) for t, m in refs]
+	matched = []
+	for (t, m), d in zip(refs, dex):
+		mt = None
+		for a in reversed(paths[t]):
+			if thr[a] is not None and d <= Fraction(thr[a], 16):
+				mt = a
+				break
+		matched.append(mt)
+	mset = sorted({m for m in matched if m is not None})
+	cons, others = _py_spec(paths, mset)
+	return dex, matched, mset, cons, others
+
+
+def _qseq_check(c):
+	if not c['dbs'] or not c['qsets'] or not c['params'] or not c['steps']:
+		raise ValueError('bad case')
+	for D in c['dbs']:
+		paths = _paths(D['parents'])
+		nref = len(D['refs'])
+		if len(D['thr']) != len(paths) or not D['refs']:
+			raise ValueError('bad database')
+		if sorted(r for r in D['sigorder'] if r >= 0) != list(range(nref)):
+			raise ValueError('bad signature order')
+		if any(not (0 <= t < len(paths)) or not (1 <= m <= 16) for t, m in D['refs']):
+			raise ValueError('bad sizes')
+	for Q in c['qsets']:
+		if not Q['q'] or any(not (1 <= q <= 16) for q in Q['q']) or Q['as'] not in ('list', 'tuple', 'siglist', 'sigarray'):
+			raise ValueError('bad queries')
+	for P in c['params']:
+		if P['form'] not in ('params', 'positional', 'kw') or not (P['chunksize'] is None or P['chunksize'] >= 1):
+			raise ValueError('bad params')
+	for s in c['steps']:
+		if s['op'] not in ('query', 'item', 'cli', 'fail', 'reload'):
+			raise ValueError('bad step')
+		c['dbs'][s['db']]
+		if s['op'] != 'reload':
+			c['qsets'][s['q']]
+		if s['op'] in ('query', 'item', 'fail'):
+			c['params'][s['p']]
+		if s['op'] == 'fail' and s['how'] not in _QSEQ_FAILS:
+			raise ValueError('bad step')
+		if min(s['db'], s.get('q', 0), s.get('p', 0)) < 0:
+			raise ValueError('bad step')
+
+
+def k_qseq(ctx, cases):
+	import hashlib
+	import json
+	import os
+	import shutil
+	import attr
+	import numpy as np
+	from click.testing import CliRunner
+	import gambit.cli
+	from gambit.db import ReferenceDatabase
+	from gambit.query import query, QueryParams, QueryInput, get_result_item
+	from gambit.sigs import SignatureList, SignatureArray, SignaturesMeta, AnnotatedSignatures, dump_signatures
+	from vf import impl as vimpl
+	if _scratch[0] is None:
+		_scratch[0] = vimpl.scratch_dir('gambit-verif-c10-')
+	for c in cases:
+		_qseq_check(c)
+		_scratch[1] += 1
+		top = os.path.join(_scratch[0], f'qseq{_scratch[1]}')
+		os.makedirs(top)
+		dbs = []
+
+		def bad(what, **kw):
+			ctx.violation('qseq', c, what + f' [script of calls over shared caller objects: databases={c["dbs"]}, query containers (numbers '
+			              f'of k-mers, nested sets, distance 1-min/max)={c["qsets"]}, params pool={c["params"]}]', **kw)
+
+		def fhash(p):
+			with open(p, 'rb') as f:
+				return hashlib.sha1(f.read()).hexdigest()
+
+		def load(i):
+			D = c['dbs'][i]
+			d = os.path.join(top, f'db{i}')
+			db = ReferenceDatabase.load_from_dir(d) if D.get('load') == 'dir' else \
+				ReferenceDatabase.load(os.path.join(d, 'db.gdb'), os.path.join(d, 'refs.gs'))
+			return dict(db=db, dir=d, paths=_paths(D['parents']), glist=list(db.genomes), gobj=db.genomes, sidx=list(db.sig_indices),
+			            files=(fhash(os.path.join(d, 'db.gdb')), fhash(os.path.join(d, 'refs.gs'))), rows={})
+
+		def close(o):
+			db = o['db']
+			db.session.close()
+			try:
+				db.session.get_bind().dispose()
+			except Exception:  # noqa
+				pass
+			if hasattr(db.signatures, 'close'):
+				db.signatures.close()
+
+		try:
+			ks = ws = U = None
+			for i, D in enumerate(c['dbs']):
+				ks, ws, U = _build_qdb(os.path.join(top, f'db{i}'), D)
+				dbs.append(load(i))
+
+			def mkq(Q):
+				dt = np.dtype(Q.get('dt', 'u2'))
+				arrs = [np.array(U[:q], dtype=dt) for q in Q['q']]
+				if Q['as'] == 'siglist':
+					return SignatureList(arrs, ks, dtype=dt), arrs
+				if Q['as'] == 'sigarray':
+					return SignatureArray(arrs, ks, dtype=dt), arrs
+				return (tuple(arrs) if Q['as'] == 'tuple' else arrs), arrs
+			qobjs = [mkq(Q) for Q in c['qsets']]
+
+			def snap_q(k):
+				o, arrs = qobjs[k]
+				items = [np.asarray(x) for x in o]
+				return (len(o), [x.tobytes() for x in items], [x.dtype.str for x in items],
+				        [id(x) for x in o] if c['qsets'][k]['as'] in ('list', 'tuple') else None, [x.tobytes() for x in arrs])
+			qsnap = [snap_q(k) for k in range(len(qobjs))]
+			pobjs = []
+			for P in c['params']:
+				if P['form'] == 'kw':
+					pobjs.append(dict(classify_strict=P['strict'], chunksize=P['chunksize'], report_closest=P.get('report_closest', 10)))
+				else:
+					pobjs.append(QueryParams(P['strict'], P['chunksize'], P.get('report_closest', 10)))
+			psnap = [dict(p) if isinstance(p, dict) else attr.asdict(p) for p in pobjs]
+			rows = {}       # (db, number of k-mers) -> the caller's distance row for get_result_item
+
+			def world():
+				for k in range(len(qobjs)):
+					if snap_q(k) != qsnap[k]:
+						return f'query container #{k} ({c["qsets"][k]}) was changed'
+				for k, p in enumerate(pobjs):
+					now = dict(p) if isinstance(p, dict) else attr.asdict(p)
+					if now != psnap[k]:
+						return f'the caller\'s {"keyword dict" if isinstance(p, dict) else "QueryParams object"} #{k} now reads {now} (it was made as {psnap[k]})'
+				for key, (row, b) in rows.items():
+					if row.tobytes() != b:
+						return f'the caller\'s distance row for database {key[0]} / query with {key[1]} k-mers now reads {row.tolist()}'
+				for i, o in enumerate(dbs):
+					db, D = o['db'], c['dbs'][i]
+					if db.genomes is not o['gobj'] or len(db.genomes) != len(o['glist']) or any(a is not b for a, b in zip(db.genomes, o['glist'])):
+						return f'the genome list of database object {i} was changed (now {[g.key for g in db.genomes]})'
+					if list(db.sig_indices) != o['sidx']:
+						return f'sig_indices of database object {i} are now {list(db.sig_indices)} (loaded as {o["sidx"]})'
+					if db.session.dirty or db.session.new or db.session.deleted:
+						return f'the session of database object {i} has pending changes: dirty={list(db.session.dirty)} new={list(db.session.new)}'
+					for g in db.genomes:
+						r = int(g.key[1:])
+						lin = [(int(t.key[2:]), t.distance_threshold, t.name) for t in g.taxon.ancestors(incself=True)][::-1]
+						exp = [(a, None if D['thr'][a] is None else D['thr'][a] / 16, f't{a}') for a in o['paths'][D['refs'][r][0]]]
+						if lin != exp:
+							return f'database object {i}: the lineage (taxon, threshold, name) of genome g{r} now reads {lin}, the database holds {exp}'
+					now = (fhash(os.path.join(o['dir'], 'db.gdb')), fhash(os.path.join(o['dir'], 'refs.gs')))
+					if now != o['files']:
+						return f'the files of database {i} were changed ({"db.gdb" if now[0] != o["files"][0] else "refs.gs"})'
+				return None
+
+			def obs_item(item):
+				r = item.classifier_result
+				pm = r.primary_match
+				return dict(success=bool(r.success), error=r.error,
+				            pred=None if r.predicted_taxon is None else int(r.predicted_taxon.key[2:]), warned=_q_warned(r.warnings),
+				            primary=None if pm is None else (int(pm.genome.key[1:]), float(pm.distance),
+				                                             None if pm.matched_taxon is None else int(pm.matched_taxon.key[2:])))
+
+			def judge(where, i, q, obs, report=bad):
+				D, o = c['dbs'][i], dbs[i]
+				dex, matched, mset, cons, others = _q_expect(o['paths'], D['thr'], D['refs'], q)
+				if report is bad:
+					if len(mset) >= 2:
+						nt[0] = True
+					if _three_level(o['paths'], mset):
+						ctx.count('shape:three-level-conflict')
+				return _q_judge(report, where, o['paths'], matched, mset, cons, others, dex, obs)
+
+			def canary():
+				"""a fixed good call on objects of its own (fresh params, fresh query list) against the first database: None, or what is
+				wrong.  Before the script: state left behind in this process by an earlier, reported script must not be blamed on this
+				one (the script is skipped); after it: state the script left behind is found by the script that caused it."""
+				said = []
+				try:
+					res = query(dbs[0]['db'], [np.array(U[:16], dtype=np.uint16), np.array(U[:8], dtype=np.uint16)], QueryParams(classify_strict=True))
+					for j, item in enumerate(res.items):
+						judge(f'query with {(16, 8)[j]} k-mers', 0, (16, 8)[j], obs_item(item), report=lambda w, **kw: said.append(w))
+					if len(res.items) != 2:
+						said.append(f'{len(res.items)} items for 2 queries')
+				except Exception as x:  # noqa
+					said.append(f'raises {type(x).__name__}: {x}')
+				return said[0] if said else None
+
+			nt = [False]
+			w = canary()
+			if w is not None:
+				if ctx.replaying:
+					raise RuntimeError('process state was changed by an earlier case: ' + w)
+				ctx.count('qseq:script-skipped (state left behind in the process by an earlier, reported script)')
+				if not ctx.violations:
+					ctx.broke('qseq: the fixed good call that frames every script is wrong although no violation was reported before', w)
+				ctx.case(c)
+				continue
+			handed = []      # (step, database, result item, observation, warnings)
+			failed = False
+			used = {}
+			ok = True
+			ctx.count('stream-part:qseq-steps', len(c['steps']))
+			for k, s in enumerate(c['steps']):
+				op = s['op']
+				where = f'step {k + 1} of {len(c["steps"])} {s}'
+				i = s['db']
+				if op == 'reload':
+					# the caller closes the database object and loads the same files again (new reader, new ORM objects)
+					ctx.count('qseq-step:reload')
+					handed = [h for h in handed if h[1] != i]
+					close(dbs[i])
+					dbs[i] = load(i)
+					rows = {key: v for key, v in rows.items() if key[0] != i}
+					continue
+				db = dbs[i]['db']
+				Q = c['qsets'][s['q']]
+				qo = qobjs[s['q']][0]
+				if op == 'fail':
+					how = s['how']
+					ctx.count('qseq-step:failing-call-' + how)
+					p = pobjs[s['p']]
+					P = c['params'][s['p']]
+					call = (lambda qs, **kw: query(db, qs, **p, **kw)) if isinstance(p, dict) else \
+						(lambda qs, **kw: query(db, qs, p, **kw))
+					try:
+						if how == 'empty':
+							call([])
+						elif how == 'inputs-mismatch':
+							call(qo, inputs=['only one label'] * (len(Q['q']) + 1))
+						elif how == 'bad-signature':
+							l2 = list(qo)
+							l2.insert(min(s.get('at', 1), len(l2)), None)
+							call(l2)
+						elif how == 'raising-queries':
+							def it():
+								for j, x in enumerate(qo):
+									if j >= s.get('at', 1):
+										break
+									yield x
+								raise _SeqBoom('the caller\'s iterator fails')
+							call(it())
+						elif how == 'bad-chunksize':
+							query(db, qo, QueryParams(bool(P['strict']), 0))
+						elif how == 'cli-truncated':
+							sigf = os.path.join(top, f'trunc{k}.qs')
+							dump_signatures(sigf, AnnotatedSignatures(SignatureList(qobjs[s['q']][1], ks, dtype=np.dtype(Q.get('dt', 'u2'))),
+							                                          [f'q{j}' for j in range(len(Q['q']))], SignaturesMeta(id='q')), 'hdf5')
+							with open(sigf, 'rb') as f:
+								b = f.read()
+							with open(sigf, 'wb') as f:
+								f.write(b[:max(16, len(b) * min(max(s.get('at', 1), 1), 3) // 4)])
+							r = CliRunner().invoke(gambit.cli.cli, ['-d', dbs[i]['dir'], 'query', '--strict', '-s', sigf, '-f', 'archive',
+							                                       '-o', os.path.join(top, f'fail{k}.json')])
+							if r.exit_code != 0:
+								raise _SeqBoom('exit code')
+						elif how == 'cli-missing-file':
+							r = CliRunner().invoke(gambit.cli.cli, ['-d', dbs[i]['dir'], 'query', '--strict', '-f', 'archive',
+							                                       '-o', os.path.join(top, f'fail{k}.json'), os.path.join(top, 'missing.fasta')])
+							if r.exit_code != 0:
+								raise _SeqBoom('exit code')
+						ctx.count('qseq:failing-call-did-not-raise')
+					except Exception:  # noqa
+						failed = True
+					w = world()
+					if w is not None:
+						bad(f'{where}: after this (failing) call {w}')
+						ok = False
+						break
+					continue
+				# ---- good calls
+				if failed:
+					ctx.count('qseq:good-call-after-a-failed-call')
+					failed = False
+				ctx.count('qseq-step:' + op)
+				used.setdefault(('q', s['q']), set()).add(i)
+				if op == 'query':
+					p = pobjs[s['p']]
+					P = c['params'][s['p']]
+					used.setdefault(('p', s['p']), set()).add(i)
+					try:
+						if isinstance(p, dict):
+							res = query(db, qo, **p)
+						elif P['form'] == 'positional':
+							res = query(db, qo, p)
+						else:
+							res = query(db, qo, params=p, inputs=[f'q{j}' for j in range(len(Q['q']))])
+					except Exception as x:  # noqa
+						bad(f'{where}: gambit.query.query raises {type(x).__name__}: {x}', impl=type(x).__name__)
+						ok = False
+						break
+					if len(res.items) != len(Q['q']):
+						bad(f'{where}: gambit.query.query returns {len(res.items)} items for {len(Q["q"])} queries')
+						ok = False
+						break
+					if not P['strict']:
+						ctx.count('qseq:non-strict-call-in-between (not judged)')
+					else:
+						ctx.count('stream-part:qseq-strict-results', len(res.items))
+						for j, item in enumerate(res.items):
+							obs = obs_item(item)
+							handed.append((k, i, item, obs, list(item.classifier_result.warnings)))
+							if not judge(f'{where}: gambit.query.query item {j} (query with {Q["q"][j]} k-mers) on database {i}', i, Q['q'][j], obs):
+								ok = False
+								break
+				elif op == 'item':
+					p = pobjs[s['p']]
+					P = c['params'][s['p']]
+					if isinstance(p, dict):
+						p = QueryParams(**p)
+					q = Q['q'][s.get('j', 0) % len(Q['q'])]
+					D = c['dbs'][i]
+					if (i, q) not in rows:
+						row = np.array([1 - min(D['refs'][int(g.key[1:])][1], q) / max(D['refs'][int(g.key[1:])][1], q) for g in dbs[i]['glist']],
+						               dtype=np.float32)
+						rows[(i, q)] = (row, row.tobytes())
+					row = rows[(i, q)][0]
+					inp = QueryInput(f'row{k}')
+					try:
+						item = get_result_item(db, p, row, inp)
+					except Exception as x:  # noqa
+						bad(f'{where}: get_result_item raises {type(x).__name__}: {x}', impl=type(x).__name__)
+						ok = False
+						break
+					if P['strict']:
+						obs = obs_item(item)
+						handed.append((k, i, item, obs, list(item.classifier_result.warnings)))
+						ctx.count('stream-part:qseq-strict-results')
+						if not judge(f'{where}: get_result_item with the caller\'s float32 distance row (query with {q} k-mers) on database {i}', i, q, obs):
+							ok = False
+					else:
+						ctx.count('qseq:non-strict-call-in-between (not judged)')
+				elif op == 'cli':
+					sigf = os.path.join(top, f'query{s["q"]}.qs')
+					if not os.path.exists(sigf):
+						dump_signatures(sigf, AnnotatedSignatures(SignatureList([np.array(U[:q], dtype=np.uint16) for q in Q['q']], ks, dtype=np.uint16),
+						                                          [f'q{j}' for j in range(len(Q['q']))], SignaturesMeta(id='q')), 'hdf5')
+					out = os.path.join(top, f'out{k}.json')
+					args = ['-d', dbs[i]['dir'], 'query', '--strict', '-s', sigf, '-f', 'archive', '-o', out] + \
+						(['--no-progress'] if s.get('noprogress') else [])
+					r = CliRunner().invoke(gambit.cli.cli, args)
+					if r.exit_code != 0 or not os.path.exists(out):
+						bad(f'{where}: gambit {" ".join(args[2:])}: exit code {r.exit_code}: {r.exception!r}', impl=str(r.exception))
+						ok = False
+						break
+					with open(out) as f:
+						items = json.load(f)['items']
+					if len(items) != len(Q['q']):
+						bad(f'{where}: gambit {" ".join(args[2:])}: {len(items)} items for {len(Q["q"])} queries')
+						ok = False
+						break
+					ctx.count('stream-part:qseq-strict-results', len(items))
+					for j, it in enumerate(items):
+						cr = it['classifier_result']
+						pm = cr['primary_match']
+						obs = dict(success=cr['success'], error=cr['error'],
+						           pred=None if cr['predicted_taxon'] is None else int(cr['predicted_taxon']['key'][2:]),
+						           warned=_q_warned(cr['warnings']),
+						           primary=None if pm is None else (int(pm['genome']['key'][1:]), float(pm['distance']),
+						                                            None if pm['matched_taxon'] is None else int(pm['matched_taxon']['key'][2:])))
+						if not judge(f'{where}: gambit query --strict -f archive item {j} (query with {Q["q"][j]} k-mers) on database {i}', i, Q['q'][j], obs):
+							ok = False
+							break
+				if not ok:
+					break
+				w = world()
+				if w is not None:
+					bad(f'{where}: after this call {w}')
+					ok = False
+					break
+			if ok:
+				for k, i, item, obs, warnings in handed:
+					o2 = obs_item(item)
+					if o2 != obs or list(item.classifier_result.warnings) != warnings:
+						bad(f'the result returned by step {k + 1} {c["steps"][k]} reads {o2} warnings={list(item.classifier_result.warnings)} at the end of '
+						    f'the script; when it was returned it read {obs} warnings={warnings}', impl=o2, spec=obs)
+						break
+				if any(len(v) > 1 for v in used.values()):
+					ctx.count('qseq:object-used-against-two-databases')
+				w = canary()
+				if w is not None:
+					bad(f'after the script (last step: {c["steps"][-1]}) a fixed good call -- gambit.query.query on the first database with a fresh '
+					    f'params object and a fresh list of two queries -- is wrong: the script left state behind: {w}')
+			ctx.case(c, nontrivial=nt[0])
+		finally:
+			for o in dbs:
+				try:
+					close(o)
+				except Exception:  # noqa
+					pass
+			shutil.rmtree(top, ignore_errors=True)
+
+
+KINDS = {'consensus': k_consensus, 'classify': k_classify, 'cli': k_cli, 'query': k_query, 'seq': k_seq, 'qseq': k_qseq}
+# 'query' / 'qseq' have no Coq model behind them (see their headers): they are not listed as model/implementation correspondences
+CORRESPONDENCES = ['classify', 'cli', 'consensus', 'seq']
 
 
 # ---------------------------------------------------------------------------------------------
@@ -1026,6 +2064,178 @@ def _rand_opts(rng, genomes, den):
 	if rng.random() < 0.4:
 		o['reuse'] = True
 	return o
+
+
+def _rand_seq_case(rng, maxsteps):
+	"""a random script for kind seq: one or two 'worlds' (trees with the same Taxon.id values 0.., as two databases have), small
+	pools of genome objects / reference containers / distance arrays / taxon containers, 2..maxsteps steps over them"""
+	n1 = rng.randint(2, 6)
+	parents = _rand_forest(rng, n1)
+	ids = list(range(n1))
+	if rng.random() < 0.5:
+		n2 = n1 if rng.random() < 0.5 else rng.randint(2, 5)
+		parents += [p if p < 0 else p + n1 for p in _rand_forest(rng, n2)]
+		ids += list(range(n2))
+	n = len(parents)
+	if rng.random() < 0.4:
+		# one tree mostly: conflicts (and three-level ones) are frequent
+		parents = [-1] + [rng.choice([0, 0, max(0, i - 1), rng.randrange(i)]) for i in range(1, n)]
+	thr = _rand_thr(rng, parents)
+	ng = rng.randint(2, 6)
+	genomes = [rng.randrange(n) for _ in range(ng)]
+	lens = rng.choice([[2, 3], [3], [2, 4], [1, 3], [4, 5], [3, 3, 6]])
+	lo, hi = rng.choice([0, 0, 4]), 17
+	if rng.random() < 0.2:
+		# a three-level conflict {X, a descendant Y of it, Z beside X} whose members all match, in every reference order
+		parents, x, y, z = _three_level_forest(rng.randint(2, 3), rng.randint(1, 2), 0, rng.randint(1, 2))
+		parents = parents + [-1]
+		n = len(parents)
+		ids = list(range(n))
+		thr = [rng.choice([None, 12, 14]) for _ in range(n)]
+		thr[x], thr[y], thr[z] = rng.randint(8, 10), rng.randint(6, 8), rng.randint(8, 10)
+		genomes = [x, y, z] + [rng.randrange(n) for _ in range(rng.randint(0, 2))]
+		ng = len(genomes)
+		lens, hi = [3], 9
+	lists = [dict(g=[rng.randrange(ng) for _ in range(rng.choice(lens))], **{'as': 'list' if rng.random() < 0.75 else 'tuple'})
+	         for _ in range(rng.randint(2, 3))]
+	if lens == [3] and hi == 9:
+		lists[0]['g'] = rng.sample([0, 1, 2], 3)
+	arrays = [dict(v=[rng.randint(lo, hi) for _ in range(rng.choice(lens))], layout=rng.choice(_LAYOUTS)) for _ in range(rng.randint(2, 3))]
+	taxsets = [dict(t=[rng.randrange(n) for _ in range(rng.randint(0, 5))], **{'as': rng.choice(_CONTAINERS[:6])}) for _ in range(rng.randint(1, 2))]
+	llen = [len(L['g']) for L in lists]
+	steps = []
+	if rng.random() < 0.45:
+		# directed: a call, a change by the caller that matters to exactly that call (a taxon on a lineage of one of its genomes
+		# re-parented / given another threshold, one of its genomes moved, one of its distances or list entries overwritten),
+		# sometimes a failing call, then the same call on the same objects again -- twice over
+		l = rng.randrange(len(lists))
+		same = [a for a, A in enumerate(arrays) if len(A['v']) == llen[l]]
+		if not same:
+			arrays.append(dict(v=[rng.randint(lo, hi) for _ in range(llen[l])], layout=rng.choice(_LAYOUTS)))
+			same = [len(arrays) - 1]
+		a = rng.choice(same)
+		cur, gt = list(parents), list(genomes)
+		call = dict(op='classify', l=l, a=a, th=0)
+		steps.append(dict(call))
+		for _ in range(rng.randint(1, 2)):
+			on = set()
+			for g in lists[l]['g']:
+				t = gt[g]
+				while t >= 0:
+					on.add(t)
+					t = cur[t]
+			w = rng.choice(['parent', 'parent', 'parent', 'thr', 'thr', 'taxon', 'dist', 'list'])
+			movable = sorted(t for t in on if t > 0)
+			if w == 'parent' and movable:
+				t = rng.choice(movable)
+				p = rng.choice([q for q in range(-1, t) if q != cur[t]])
+				cur[t] = p
+				steps.append(dict(op='edit', what='parent', t=t, p=p))
+			elif w == 'taxon':
+				g = rng.choice(lists[l]['g'])
+				gt[g] = rng.randrange(n)
+				steps.append(dict(op='edit', what='taxon', g=g, t=gt[g]))
+			elif w == 'dist' and arrays[a]['layout'] != 'readonly':
+				steps.append(dict(op='edit', what='dist', a=a, i=rng.randrange(llen[l]), v=rng.randint(0, 17)))
+			elif w == 'list' and lists[l]['as'] == 'list':
+				g2 = list(lists[l]['g'])
+				g2[rng.randrange(len(g2))] = rng.randrange(ng)
+				steps.append(dict(op='edit', what='list', l=l, g=g2))
+			else:
+				steps.append(dict(op='edit', what='thr', t=rng.choice(sorted(on)), v=rng.choice([None, 0, rng.randint(0, 16), 16, 17])))
+			if rng.random() < 0.3:
+				steps.append(dict(op='fail', how=rng.choice(_SEQ_FAILS), l=l, a=a, s=0, at=rng.randint(0, 3), th=0))
+			steps.append(dict(call, th=1 if rng.random() < 0.25 else 0))
+		return dict(parents=parents, thr=thr, ids=ids, genomes=genomes, lists=lists, arrays=arrays, taxsets=taxsets, steps=steps)
+	for _ in range(rng.randint(2, maxsteps)):
+		x = rng.random()
+		th = 1 if rng.random() < 0.25 else 0
+		if x < 0.5:
+			l = rng.randrange(len(lists))
+			same = [a for a, A in enumerate(arrays) if len(A['v']) == llen[l]]
+			a = rng.choice(same) if same and rng.random() < 0.9 else rng.randrange(len(arrays))
+			s = dict(op='classify' if rng.random() < 0.85 else 'find', l=l, a=a, th=th)
+			if s['op'] == 'classify' and rng.random() < 0.25:
+				s['strict'] = rng.choice(['np', 'one', 'no'])
+		elif x < 0.58:
+			s = dict(op='consensus', s=rng.randrange(len(taxsets)), th=th)
+		elif x < 0.62:
+			s = dict(op='match', g=rng.randrange(ng), d=rng.randint(0, 17), th=th)
+			if rng.random() < 0.5:
+				s['scalar'] = rng.choice(['py', 'f64'])
+		elif x < 0.85:
+			w = rng.choice(['parent', 'parent', 'thr', 'thr', 'taxon', 'dist', 'list'])
+			if w == 'parent' and n > 1:
+				t = rng.randrange(1, n)
+				s = dict(op='edit', what='parent', t=t, p=rng.randint(-1, t - 1))
+			elif w == 'taxon':
+				s = dict(op='edit', what='taxon', g=rng.randrange(ng), t=rng.randrange(n))
+			elif w == 'dist' and any(A['layout'] != 'readonly' for A in arrays):
+				a = rng.choice([a for a, A in enumerate(arrays) if A['layout'] != 'readonly'])
+				s = dict(op='edit', what='dist', a=a, i=rng.randrange(len(arrays[a]['v'])), v=rng.randint(0, 17))
+			elif w == 'list' and any(L['as'] == 'list' for L in lists):
+				l = rng.choice([l for l, L in enumerate(lists) if L['as'] == 'list'])
+				m = llen[l] if rng.random() < 0.7 else max(1, llen[l] + rng.choice([-1, 1]))
+				s = dict(op='edit', what='list', l=l, g=[rng.randrange(ng) for _ in range(m)])
+				llen[l] = m
+			else:
+				s = dict(op='edit', what='thr', t=rng.randrange(n), v=rng.choice([None, rng.randint(0, 16), rng.randint(8, 16)]))
+		else:
+			s = dict(op='fail', how=rng.choice(_SEQ_FAILS), l=rng.randrange(len(lists)), a=rng.randrange(len(arrays)),
+			         s=rng.randrange(len(taxsets)), at=rng.randint(0, 3), th=th)
+		steps.append(s)
+	return dict(parents=parents, thr=thr, ids=ids, genomes=genomes, lists=lists, arrays=arrays, taxsets=taxsets, steps=steps)
+
+
+def _rand_qseq_case(rng, maxsteps, cli_share):
+	def rdb(n=None):
+		if rng.random() < 0.3:
+			parents, x, y, z = _three_level_forest(rng.randint(2, 3), rng.randint(1, 2), 0, rng.randint(1, 2))
+			parents = parents + [-1]
+			n = len(parents)
+			thr = [None] * n
+			thr[x], thr[y], thr[z] = 8, rng.choice([4, 6]), 8
+			thr[0] = rng.choice([None, 12])
+			thr[n - 1] = rng.choice([None, 8])
+			refs = [[x, rng.randint(7, 16)], [y, rng.randint(9, 16)], [z, rng.randint(7, 16)]]
+			refs += [[rng.randrange(n), rng.randint(1, 16)] for _ in range(rng.randint(0, 3))]
+			rng.shuffle(refs)
+		else:
+			n = n or rng.randint(2, 7)
+			parents = _rand_forest(rng, n)
+			thr = _rand_thr(rng, parents)
+			refs = [[rng.randrange(n), rng.randint(1, 16)] for _ in range(rng.randint(1, 8))]
+		sigorder = list(range(len(refs)))
+		if rng.random() < 0.6:
+			rng.shuffle(sigorder)
+		if rng.random() < 0.3:
+			sigorder.insert(rng.randint(0, len(sigorder)), -rng.randint(1, 3))
+		return dict(parents=parents, thr=thr, refs=refs, sigorder=sigorder, rdtype=rng.choice(['u2', 'u4']), load=rng.choice(['files', 'dir']))
+	dbs = [rdb()]
+	if rng.random() < 0.8:
+		dbs.append(rdb(len(dbs[0]['parents']) if rng.random() < 0.5 else None))
+	qsets = [dict(q=[rng.choice([16, 16, rng.randint(1, 16)])] + [rng.randint(1, 16) for _ in range(rng.randint(0, 2))],
+	              dt=rng.choice(['u2', 'u4']), **{'as': rng.choice(['list', 'list', 'tuple', 'siglist', 'sigarray'])}) for _ in range(rng.randint(1, 3))]
+	params = [dict(strict=True, chunksize=rng.choice([None, 1, 2, 1000]), form=rng.choice(['params', 'positional', 'kw']),
+	               report_closest=rng.choice([10, 1, 3])) for _ in range(rng.randint(1, 2))]
+	if rng.random() < 0.5:
+		params.append(dict(strict=False, chunksize=rng.choice([None, 2, 1000]), form=rng.choice(['params', 'kw']), report_closest=10))
+	steps = []
+	for _ in range(rng.randint(3, maxsteps)):
+		x = rng.random()
+		db, q, p = rng.randrange(len(dbs)), rng.randrange(len(qsets)), rng.randrange(len(params))
+		if x < 0.55:
+			s = dict(op='query', db=db, q=q, p=p)
+		elif x < 0.68:
+			s = dict(op='item', db=db, q=q, p=p, j=rng.randrange(3))
+		elif x < 0.68 + cli_share:
+			s = dict(op='cli', db=db, q=q, noprogress=rng.random() < 0.5)
+		elif x < 0.93:
+			s = dict(op='fail', how=rng.choice(_QSEQ_FAILS[:5] if rng.random() < 0.8 else _QSEQ_FAILS[5:]), db=db, q=q, p=p, at=rng.randint(0, 2))
+		else:
+			s = dict(op='reload', db=db)
+		steps.append(s)
+	return dict(dbs=dbs, qsets=qsets, params=params, steps=steps)
 
 
 def generate(ctx):
@@ -1328,3 +2538,24 @@ def generate(ctx):
 			queries[0] = 16
 		ctx.count('stream:query-api-and-cli')
 		yield 'query', qcase(parents, thr, refs, queries, it % 2 == 0)
+	# =============================================================================================
+	# streams added by the statefulness / aliasing audit (see "state and aliasing" in the module docstring)
+	# ---- scripts of classify / find_matches / matching_taxon / consensus_taxon calls over a shared pool of taxa, genomes,
+	#      reference containers and distance arrays; the caller changes its own objects between calls; failing calls in
+	#      between; some steps on a second thread; every script also with its steps in the opposite order
+	for _ in range(ctx.pick(1400, 10000)):
+		case = _rand_seq_case(rng, ctx.pick(6, 8))
+		ctx.count('stream:seq-classify-scripts')
+		yield 'seq', case
+		if rng.random() < 0.5:
+			ctx.count('stream:seq-classify-scripts')
+			yield 'seq', dict(case, steps=case['steps'][::-1])
+	# ---- scripts of gambit.query.query / get_result_item / command-line calls over one or two databases, a pool of
+	#      QueryParams objects / keyword dicts and of query containers; failing calls, reloads, non-strict calls in between
+	for _ in range(ctx.pick(36, 300)):
+		case = _rand_qseq_case(rng, ctx.pick(6, 8), ctx.pick(0.08, 0.12))
+		ctx.count('stream:qseq-query-scripts')
+		yield 'qseq', case
+		if rng.random() < 0.5:
+			ctx.count('stream:qseq-query-scripts')
+			yield 'qseq', dict(case, steps=case['steps'][::-1])
